@@ -409,13 +409,29 @@ func checkC18(prop, tier string) int {
 	for from := 0; from < probe.Total; from += chunk {
 		jobs = append(jobs, Job{Kind: "c18", Data: mustJSON(c18Job{Tier: tier, From: from, To: from + chunk})})
 	}
+	// the thorough tier has thousands of directory states; jobs are taken in an order that strides through the list
+	// (crash points early and late in every workload first), under the tier's deadline
+	if len(jobs) > 64 {
+		var strided []Job
+		for off := 0; off < 16; off++ {
+			for i := off; i < len(jobs); i += 16 {
+				strided = append(strided, jobs[i])
+			}
+		}
+		jobs = strided
+	}
+	pool.Deadline = time.Now().Add(tierDeadline(tier))
 	results := pool.Run(jobs)
 	var tot c18Res
-	infra := 0
+	infra, skipped := 0, 0
 	var viols []Violation
 	seen := map[string]bool{}
 	var samples []any
 	for i, r := range results {
+		if r.Skipped {
+			skipped++
+			continue
+		}
 		if r.Crashed || r.Err != "" {
 			if v := crashViolation(pool, "C18", jobs[i], r); v != nil {
 				viols = append(viols, *v)
@@ -458,7 +474,9 @@ func checkC18(prop, tier string) int {
 			"distinct_nontrivial":           tot.MultiFile,
 			"rule":                          "directory states = every distinct post-crash image of the recorded workloads (C05's crash model) plus hand-listed ones (two complete files, incomplete newer files, junk names); for each x StoreOptions set x every driver sequence over {Get, Snapshot+iterate, ExecuteBatch, NotifyMerger, Close collection, Close store} up to the stated length the directory is opened ReadOnly through the recording file layer; oracle: names, sizes, content hashes and inode numbers unchanged, no create/write/truncate/unlink, every open O_RDONLY, content equal to a writable open of a copy; distinct_nontrivial = directory states with more than one data file",
 			"samples":                       samples,
-			"exhaustive":                    infra == 0,
+			"exhaustive":                    infra == 0 && skipped == 0,
+			"cap_hit":                       fmt.Sprintf("%d of %d jobs (4 directory states each) skipped by the deadline", skipped, len(jobs)),
+			"directory_states_total":        probe.Total,
 			"directory_states":              tot.Dirs,
 			"runs":                          tot.Runs,
 			"infrastructure_errors":         infra,
